@@ -922,6 +922,7 @@ func init() {
 			c.FetchHelperRules("C11", s, "att")
 			c.FetchHelperRules("C11", s, "prop")
 			c.rulesLevelImport("C11", s)
+			c.SigningRootProvenance("C11") // the records that are exported are kept under the key the signature is made with
 			c.SyncOption("C11")
 			c.StoreCommit("C11", s)
 			c.WhoWrites("C11")
